@@ -5,6 +5,7 @@ import (
 	"encoding/json"
 	"fmt"
 	"math/rand"
+	"regexp"
 	"sort"
 	"strings"
 
@@ -147,6 +148,10 @@ func runC02(r *Report, rng *rand.Rand, thorough bool) {
 	}
 	docs := c02Docs(rng, nRandom)
 	cfgs := c02Configs()
+	// model tie for generations from one loaded document: which components of OTHER documents each generation declares locally
+	ocases := NewCases("cases_C02_onedoc", "From V Require Import Model.Det Corr.Eval.", "bool * list string * list string * list (list string)", "mismatches_onedoc")
+	defer ocases.WriteTo(r)
+	extRefRe := regexp.MustCompile(`[\w./-]+\.yaml#/components/schemas/(\w+)`)
 	for di, d := range docs {
 		var root any
 		must(json.Unmarshal(d.spec, &root))
@@ -184,6 +189,47 @@ func runC02(r *Report, rng *rand.Rand, thorough bool) {
 				// the same LOADED document generated again and again (a generation must not change its input in a way that shows)
 				one := call.runOnOneDocument(3)
 				runs += len(one)
+				if !skipFmt {
+					extSet := map[string]bool{}
+					for _, m := range extRefRe.FindAllStringSubmatch(string(d.spec), -1) {
+						extSet[m[1]] = true
+					}
+					var ext, locals []string
+					for e := range extSet {
+						ext = append(ext, e)
+					}
+					sort.Strings(ext)
+					if rm, ok := root.(map[string]any); ok {
+						if cm, ok := rm["components"].(map[string]any); ok {
+							if sm, ok := cm["schemas"].(map[string]any); ok {
+								for k := range sm {
+									locals = append(locals, k)
+								}
+							}
+						}
+					}
+					sort.Strings(locals)
+					var obs []string
+					okAll := true
+					for _, o := range one {
+						pg, err := parseGo(o)
+						if strings.HasPrefix(o, "ERROR") || err != nil {
+							okAll = false
+							break
+						}
+						tn := pg.typeNames()
+						var decl []string
+						for _, e := range ext {
+							if tn[e] {
+								decl = append(decl, e)
+							}
+						}
+						obs = append(obs, gendoc.CoqStrList(decl))
+					}
+					if okAll {
+						ocases.Add(fmt.Sprintf("(%v, %s, %s, [%s])", cfg.Generate.EmbeddedSpec, gendoc.CoqStrList(locals), gendoc.CoqStrList(ext), strings.Join(obs, "; ")), call)
+					}
+				}
 				r.Dist["same_loaded_document_generated_three_times"]++
 				outs[one[0]]++
 				for k := 1; k < len(one); k++ {
